@@ -1,4 +1,5 @@
 use crate::error::Error;
+use crate::number::Number;
 use crate::vm::vcell::VCell;
 use crate::vm::Vm;
 use std::collections::HashSet;
@@ -42,7 +43,13 @@ impl Vm {
         };
         match (left, right) {
             (VCell::Bool(left), VCell::Bool(right)) => Ok(left == right),
-            (VCell::Number(left), VCell::Number(right)) => Ok(left == right),
+            // An exact and an inexact number are never eqv?, and two inexact numbers
+            // are eqv? when no procedure can tell them apart (R7RS 6.1)
+            (VCell::Number(left), VCell::Number(right)) => Ok(match (left, right) {
+                (Number::Float(left), Number::Float(right)) => left.to_bits() == right.to_bits(),
+                (Number::Float(_), _) | (_, Number::Float(_)) => false,
+                _ => left == right,
+            }),
             (VCell::Nil, VCell::Nil) => Ok(true),
             (VCell::Pair(_, _), VCell::Pair(_, _)) => Ok(left == right),
             (VCell::Char(left), VCell::Char(right)) => Ok(left == right),
